@@ -127,7 +127,11 @@ impl State {
                     param.get_parent_location(self.stack_id.bytesize()).unwrap();
                 let parent_id =
                     AbstractIdentifier::new(self.stack_id.get_tid().clone(), parent_location);
-                self.store_value(
+                // The memory object of the parent parameter may not exist,
+                // e.g. if the parent was merged with an overlapping stack parameter
+                // when the function signature was sanitized.
+                // In that case the nested parameter value is just not stored anywhere.
+                let _ = self.store_value(
                     &Data::from_target(
                         parent_id,
                         Bitvector::from_i64(offset)
@@ -139,8 +143,7 @@ impl State {
                         Bitvector::zero(param_id.bytesize().into()).into(),
                     ),
                     global_memory,
-                )
-                .unwrap();
+                );
             }
             AbstractLocation::GlobalAddress { .. } => (),
             AbstractLocation::GlobalPointer(_, _) => {
